@@ -99,7 +99,10 @@ Acceptable(g, pages, depthLimit) ==
 (* Impl-shaped layer: PageTreeIter *)
 
 \* Option::None for the `kids` field.  In the loop None and the empty slice are observationally
-\* the same (both fall through to the pop), so both are the empty sequence here.
+\* the same (both fall through to the pop), so both are the empty sequence here.  That equivalence is a
+\* claim about the code, so the harness tests it: an empty kids sequence of a /Pages node is realised as
+\* `/Kids []`, as no Kids entry, as a Kids that is not an array or as a Kids referring to a missing object
+\* (chosen per node), and the enumeration must be the same.
 NoKids == <<>>
 
 IterKids(g, n) ==           \* PageTreeIter::kids: dictionary -> Kids (deref) -> array
